@@ -3,8 +3,8 @@ import re, os, json, collections, concurrent.futures
 from ..main import Violation
 from .. import gen, core, threads
 
-LEAN_MODULES = ["Shm.Props.C18"]
-GEN_TABLES = []
+LEAN_MODULES = ["Shm.Props.C18", "Shm.Props.FactsC18"]
+GEN_TABLES = ["LockFacts.lean", ]
 LEVEL = "exploration"
 RULE = ("Real pthreads of one process under a deterministic scheduler that owns every mutex callback handed to C_Initialize (CreateMutex/DestroyMutex/LockMutex/"
         "UnlockMutex): exactly one thread runs; the baton changes hands only at those callbacks and between calls. K18-systematic (deterministic): for 92 two-thread scenarios "
